@@ -23,7 +23,7 @@ def f_row(fmt, ident, tag):
     base = {
         1: [NAMES[1], "", "", "3" if fixed else "1...3", "Integer", "0...999"],
         2: [NAMES[2], "", "X", "5" if fixed else "", "Text", ""],
-        3: [NAMES[3], "", "", "5" if fixed else "", "Choice", "red, green, blue"],
+        3: [NAMES[3], "", "", "5" if fixed else "", "Choice", "red, green, blue, 1.0"],
         4: [NAMES[4], "", "X", "10" if fixed else "", "DateTime", "YYYY-MM-DD"],
         5: [NAMES[5], "", "", "4" if fixed else "...4", "Pattern", "a*"],
         6: [NAMES[6], "", "X", "6" if fixed else "", "Decimal", "0...999.99"],
